@@ -1020,7 +1020,8 @@ class ObjectStateAdapter(se.ContextAdapter):
     # State has a different meaning depending on PCode
     def __init__(self, child_spec: Optional[se.SERIALIZABLE_TYPE]):
         super().__init__(
-            lambda ctx: ctx.PCode, child_spec, {
+            # PCode is only a name when reading in plain-data mode
+            lambda ctx: PCode[ctx.PCode] if isinstance(ctx.PCode, str) else ctx.PCode, child_spec, {
                 PCode.AVATAR: se.IntFlag(AgentState),
                 PCode.PRIMITIVE: AttachmentStateAdapter(None),
                 # Other cases are probably just a number (tree species ID or something.)
